@@ -40,7 +40,7 @@ def select(fams):
 def run_families(repo, fams, tier, tag, jobs=16, timeout_s=600):
     t0 = time.time()
     res = {"failed": [], "undecided": [], "checks": 0, "harnesses": [], "bounded": True,
-           "bounds": "concrete shapes named in each harness (CxR <= 3x3 / 4x1), u8 or drop-ledger cells, symbolic indices, probe cells, capacity mode and drain splits; loops unwound 8 times with unwinding assertions",
+           "bounds": "concrete shapes named in each harness (mostly CxR <= 4x4; up to 9 rows for translate), u8 or drop-ledger cells, symbolic indices, probe cells, capacity mode and drain splits; loops unwound 8 times with unwinding assertions",
            "tool": "kani 0.68 / cbmc"}
     sel = select(fams)
     if not sel:
